@@ -19,10 +19,11 @@ Proof. reflexivity. Qed.
 
 Section Layer1.
 Variable roots : list utree.
-Variable funcs : list string.
+Variable defd : string -> bool.
+Variable narrowing : bool.
 
 Notation RUN := (run true roots).
-Notation EV := (ev funcs).
+Notation EV := (gev defd narrowing).
 
 Lemma run_app a b s : RUN (a ++ b) s = RUN b (RUN a s).
 Proof. unfold run. apply fold_left_app. Qed.
@@ -68,7 +69,7 @@ Lemma ev_cmp op l r : EV None (ECmp op l r) = Enter NOther :: EV None l ++ EV No
 Proof. reflexivity. Qed.
 
 Lemma ev_log_none op l r : EV None (ELog op l r) =
-  Enter NOther :: EV (Some (lhs_truthy op)) l ++ EV None r ++ [Leave NOther].
+  Enter NOther :: EV (if narrowing then Some (lhs_truthy op) else None) l ++ EV None r ++ [Leave NOther].
 Proof. reflexivity. Qed.
 
 Lemma ev_log_some t op l r : EV (Some t) (ELog op l r) =
@@ -76,7 +77,7 @@ Lemma ev_log_some t op l r : EV (Some t) (ELog op l r) =
 Proof. destruct t, op; reflexivity. Qed.
 
 Lemma ev_call p c args : EV None (ECall p c args) =
-  Enter (NCall c) :: (if known funcs c then flat_map (EV None) args else []) ++ [Leave (NCall c)].
+  Enter (NCall c) :: (if defd c then flat_map (EV None) args else []) ++ [Leave (NCall c)].
 Proof. reflexivity. Qed.
 
 (* ---------------------------------------------------------------------- *)
@@ -153,7 +154,7 @@ Proof.
       rewrite run_app, (IHe1 _ s' k' Hs'). eauto.
   - assert (Hd : EV m (ECall p c args) = EV None (ECall p c args)) by (destruct m; reflexivity).
     rewrite Hd, ev_call. apply (pair_ignored _ _ _ k Hs). intros s' k' Hs'.
-    destruct (known funcs c); [|reflexivity]. now apply (flat_map_ignored args H s' k').
+    destruct (defd c); [|reflexivity]. now apply (flat_map_ignored args H s' k').
 Qed.
 
 (* ---------------------------------------------------------------------- *)
@@ -185,7 +186,7 @@ Fixpoint inner (e : expr) : list report :=
   | ELog _ l r => (inner l ++ flush (final l)) ++ (inner r ++ flush (final r))
   | ECall _ c args =>
       if is_safe_call c then []
-      else if known funcs c then flat_map (fun a => inner a ++ flush (final a)) args
+      else if defd c then flat_map (fun a => inner a ++ flush (final a)) args
       else []
   end.
 
@@ -312,7 +313,9 @@ Proof.
       now rewrite H5, H3, <- app_assoc. }
     assert (H1 : R1 (ELog op e1 e2)).
     { intros s Hs. rewrite ev_log_none, run_cons, !run_app. cbn [step on_enter].
-      destruct (IHln (lhs_truthy op) s Hs) as [H2 H3].
+      assert (HWl : W (if narrowing then Some (lhs_truthy op) else None) e1).
+      { destruct narrowing; [apply IHln|now apply R1_W]. }
+      destruct (HWl s Hs) as [H2 H3].
       rewrite (IHr _ H2). cbn [run fold_left step]. rewrite leave0 by reflexivity.
       rewrite do_end_mk, H3. cbn [final inner]. f_equal. unfold total. now rewrite <- !app_assoc. }
     split; [exact H1|]. intros t s Hs. rewrite ev_log_some.
@@ -328,15 +331,15 @@ Proof.
     assert (H1 : R1 (ECall p c args)).
     { intros s Hs. rewrite ev_call, run_cons, run_app. cbn [step on_enter inner final].
       destruct (is_safe_call c) eqn:Hc.
-      - assert (Hmid : RUN (if known funcs c then flat_map (EV None) args else [])
+      - assert (Hmid : RUN (if defd c then flat_map (EV None) args else [])
                          {| s_chain := s_chain s; s_safe := S (s_safe s); s_errs := s_errs s |}
                        = {| s_chain := s_chain s; s_safe := S (s_safe s); s_errs := s_errs s |}).
-        { destruct (known funcs c); [|reflexivity].
+        { destruct (defd c); [|reflexivity].
           apply (flat_map_ignored args) with (k := s_safe s); [|reflexivity].
           eapply Forall_impl; [|exact H]. intros a _ m s' k'. apply ignore_ev. }
         rewrite Hmid. cbn [run fold_left step on_leave s_safe]. rewrite Hc, Hs.
         cbn [s_chain s_errs]. unfold do_end, mk, pending; cbn. now rewrite app_nil_r.
-      - destruct (known funcs c).
+      - destruct (defd c).
         + destruct (W_args args HW s Hs) as [H2 H3].
           cbn [run fold_left step]. rewrite leave0 by assumption.
           rewrite (do_end_0 _ H2), H3. reflexivity.
@@ -346,9 +349,9 @@ Proof.
 Qed.
 
 (* Layer 1: Check() reports exactly [total e] *)
-Theorem reported_total e : reported true roots (events funcs e) = total e.
+Theorem reported_total e : reported true roots (EV None e) = total e.
 Proof.
-  unfold reported, events. destruct (main_inv e) as [H _].
+  unfold reported. destruct (main_inv e) as [H _].
   rewrite (H st_init eq_refl). reflexivity.
 Qed.
 
@@ -387,10 +390,11 @@ Definition reports_equiv : list report -> list sreport -> Prop := Forall2 req.
 
 Section Layer2.
 Variable roots : list utree.
-Variable funcs : list string.
+Variable defd : string -> bool.
+Variable narrowing : bool.
 
 Notation FINAL := (final roots).
-Notation INNER := (inner roots funcs).
+Notation INNER := (inner roots defd).
 
 Lemma child_named_prop n p : child_named n p = opt_list (find_object_prop n p).
 Proof. unfold child_named, find_object_prop. destruct (find_named _ _); reflexivity. Qed.
@@ -549,7 +553,7 @@ Lemma equiv_app a a' b b' : reports_equiv a a' -> reports_equiv b b' -> reports_
 Proof. apply Forall2_app. Qed.
 
 Lemma inner_equiv e : parser_normal e ->
-  reports_equiv (INNER e) (flat_map (report_of roots) (sub_chains (known funcs) e)).
+  reports_equiv (INNER e) (flat_map (report_of roots) (sub_chains defd e)).
 Proof.
   induction e using expr_ind'; intros Hn; cbn [inner sub_chains]; cbn [parser_normal] in Hn;
     try (now constructor).
@@ -563,15 +567,15 @@ Proof.
   - destruct Hn as (Hl & Hr). rewrite !flat_map_app.
     apply equiv_app; apply equiv_app; [now apply IHe1|now apply top_equiv|now apply IHe2|now apply top_equiv].
   - change (sanitising c) with (is_safe_call c). destruct (is_safe_call c); [constructor|].
-    destruct (known funcs c); [|constructor].
+    destruct (defd c); [|constructor].
     induction args as [|a args IHa]; cbn [flat_map]; [constructor|].
     destruct Hn as (Ha & Hrest). inversion H as [|? ? Hh Ht]; subst.
     rewrite !flat_map_app.
     apply equiv_app; [apply equiv_app|]; [now apply Hh|now apply top_equiv|now apply IHa].
 Qed.
 
-Theorem untrusted_exact e : parser_normal e ->
-  reports_equiv (reported true roots (events funcs e)) (spec_paths roots (known funcs) e).
+Theorem exact_gen e : parser_normal e ->
+  reports_equiv (reported true roots (gev defd narrowing None e)) (spec_paths roots defd e).
 Proof.
   intros Hn. rewrite reported_total. unfold total, spec_paths, chains. rewrite flat_map_app.
   apply equiv_app; [now apply inner_equiv|now apply top_equiv].
@@ -593,10 +597,11 @@ Qed.
 
 Section Secondary.
 Variable roots : list utree.
-Variable funcs : list string.
+Variable defd : string -> bool.
+Variable narrowing : bool.
 
 Notation FINAL := (final roots).
-Notation INNER := (inner roots funcs).
+Notation INNER := (inner roots defd).
 
 (* -- positions -- *)
 
@@ -655,25 +660,25 @@ Proof.
     apply (all_sub defined); auto.
 Qed.
 
-Theorem untrusted_positions e : parser_normal e ->
-  forall r, In r (reported true roots (events funcs e)) ->
+Theorem positions_gen e : parser_normal e ->
+  forall r, In r (reported true roots (gev defd narrowing None e)) ->
   exists x ch n, In x (subterms e) /\ chain_of x = Some ch /\ root_var x = Some (etok x, n) /\
                  fst r = Some (etok x) /\ Permutation (snd r) (reads roots ch) /\ reads roots ch <> [].
 Proof.
   intros Hn r Hr.
-  destruct (Forall2_In_l _ _ _ _ (untrusted_exact roots funcs e Hn) Hr) as (s & Hs & Hreq & Hperm).
+  destruct (Forall2_In_l _ _ _ _ (exact_gen roots defd narrowing e Hn) Hr) as (s & Hs & Hreq & Hperm).
   unfold spec_paths in Hs. apply in_flat_map in Hs as (ch & Hch & Hs).
   unfold report_of in Hs. destruct (reads roots ch) as [|q qs] eqn:Erd; [contradiction|].
   destruct Hs as [<-|[]]. cbn [fst snd] in *.
-  destruct (all_sub (known funcs) e (sub_sub (known funcs) e) ch Hch) as (x & Hx & Hc).
+  destruct (all_sub defd e (sub_sub defd e) ch Hch) as (x & Hx & Hc).
   destruct (chain_root x ch Hc) as (n & Hrv & Htok & _).
   exists x, ch, n. rewrite Htok, Erd. repeat split; auto. discriminate.
 Qed.
 
 (* -- sanitising calls -- *)
 
-Theorem safe_calls_silent p c args : is_safe_call c = true ->
-  reported true roots (events funcs (ECall p c args)) = [].
+Theorem safe_silent_gen p c args : is_safe_call c = true ->
+  reported true roots (gev defd narrowing None (ECall p c args)) = [].
 Proof. intros H. rewrite reported_total. unfold total. cbn [inner final]. now rewrite H. Qed.
 
 Lemma erase_lic i c : leave_index_chain (erase_safe i) c = leave_index_chain i c.
@@ -697,14 +702,14 @@ Proof.
   - now rewrite IHe1, IHe2, !erase_final.
   - change (sanitising c) with (is_safe_call c).
     destruct (is_safe_call c) eqn:E; cbn [inner]; rewrite E; [reflexivity|].
-    destruct (known funcs c); [|reflexivity].
+    destruct (defd c); [|reflexivity].
     induction args as [|a args IHa]; cbn [map flat_map]; [reflexivity|].
     inversion H as [|? ? Hh Ht]; subst. now rewrite Hh, erase_final, (IHa Ht).
 Qed.
 
 (* what is written inside contains/startsWith/endsWith never matters *)
-Theorem safe_calls_opaque e :
-  reported true roots (events funcs (erase_safe e)) = reported true roots (events funcs e).
+Theorem safe_opaque_gen e :
+  reported true roots (gev defd narrowing None (erase_safe e)) = reported true roots (gev defd narrowing None e).
 Proof. rewrite !reported_total. unfold total. now rewrite erase_inner, erase_final. Qed.
 
 (* -- letter case -- *)
@@ -730,8 +735,8 @@ Qed.
 Lemma safe_lower c c' : lower c = lower c' -> is_safe_call c = is_safe_call c'.
 Proof. unfold is_safe_call. now intros ->. Qed.
 
-Lemma known_lower c c' : lower c = lower c' -> known funcs c = known funcs c'.
-Proof. unfold known. now intros ->. Qed.
+(* the table of defined functions is keyed by lower-case names *)
+Hypothesis defd_lower : forall c c', lower c = lower c' -> defd c = defd c'.
 
 Lemma recase_inner e : forall e', recase e e' -> INNER (pnorm e) = INNER (pnorm e').
 Proof.
@@ -743,8 +748,8 @@ Proof.
   - destruct Hrc as [_ Ha]. now rewrite (IHe _ Ha), (recase_final _ _ Ha).
   - destruct Hrc as (_ & Hl & Hr). now rewrite (IHe1 _ Hl), (IHe2 _ Hr), (recase_final _ _ Hl), (recase_final _ _ Hr).
   - destruct Hrc as (_ & Hl & Hr). now rewrite (IHe1 _ Hl), (IHe2 _ Hr), (recase_final _ _ Hl), (recase_final _ _ Hr).
-  - destruct Hrc as (_ & Hc & Hargs). rewrite (safe_lower _ _ Hc), (known_lower _ _ Hc).
-    destruct (is_safe_call callee); [reflexivity|]. destruct (known funcs callee); [|reflexivity].
+  - destruct Hrc as (_ & Hc & Hargs). rewrite (safe_lower _ _ Hc), (defd_lower _ _ Hc).
+    destruct (is_safe_call callee); [reflexivity|]. destruct (defd callee); [|reflexivity].
     revert args0 Hargs. induction args as [|a args IHa]; intros [|a' args'] Hargs; try contradiction; [reflexivity|].
     destruct Hargs as [Ha Hrest]. inversion H as [|? ? Hh Ht]; subst. cbn [map flat_map].
     now rewrite (Hh _ Ha), (recase_final _ _ Ha), (IHa Ht _ Hrest).
@@ -752,11 +757,59 @@ Qed.
 
 (* the letter case of variable, property and function names and of
    ['name'] literals is irrelevant ([pnorm] is the parser's own lower-casing) *)
-Theorem untrusted_recase e e' : recase e e' ->
-  reported true roots (events funcs (pnorm e)) = reported true roots (events funcs (pnorm e')).
+Theorem recase_gen e e' : recase e e' ->
+  reported true roots (gev defd narrowing None (pnorm e)) = reported true roots (gev defd narrowing None (pnorm e')).
 Proof.
   intros H. rewrite !reported_total. unfold total.
   now rewrite (recase_inner _ _ H), (recase_final _ _ H).
 Qed.
 
 End Secondary.
+
+(* ---------------------------------------------------------------------- *)
+(* the two traversals of the Go code *)
+
+Lemma known_lower funcs c c' : lower c = lower c' -> known funcs c = known funcs c'.
+Proof. unfold known. now intros ->. Qed.
+
+Lemma visit_events_gev e : visit_events e = gev (fun _ => true) false None e.
+Proof.
+  induction e using expr_ind'; cbn [visit_events gev]; try reflexivity;
+    rewrite ?IHe, ?IHe1, ?IHe2; try reflexivity.
+  f_equal. f_equal. induction H as [|a args Ha _ IH]; cbn [flat_map]; [reflexivity|].
+  now rewrite Ha, IH.
+Qed.
+
+Section Instances.
+Variable roots : list utree.
+Variable funcs : list string.
+
+(* driven by ExprSemanticsChecker.check (expr_sema.go) *)
+Theorem untrusted_exact e : parser_normal e ->
+  reports_equiv (reported true roots (events funcs e)) (spec_paths roots (known funcs) e).
+Proof. exact (exact_gen roots (known funcs) true e). Qed.
+
+Theorem untrusted_positions e : parser_normal e ->
+  forall r, In r (reported true roots (events funcs e)) ->
+  exists x ch n, In x (subterms e) /\ chain_of x = Some ch /\ root_var x = Some (etok x, n) /\
+                 fst r = Some (etok x) /\ Permutation (snd r) (reads roots ch) /\ reads roots ch <> [].
+Proof. exact (positions_gen roots (known funcs) true e). Qed.
+
+Theorem safe_calls_silent p c args : is_safe_call c = true ->
+  reported true roots (events funcs (ECall p c args)) = [].
+Proof. exact (safe_silent_gen roots (known funcs) true p c args). Qed.
+
+Theorem safe_calls_opaque e :
+  reported true roots (events funcs (erase_safe e)) = reported true roots (events funcs e).
+Proof. exact (safe_opaque_gen roots (known funcs) true e). Qed.
+
+Theorem untrusted_recase e e' : recase e e' ->
+  reported true roots (events funcs (pnorm e)) = reported true roots (events funcs (pnorm e')).
+Proof. exact (recase_gen roots (known funcs) true (known_lower funcs) e e'). Qed.
+
+(* driven by VisitExprNode (expr_ast.go), as actionlint's own tests do *)
+Theorem visit_exact e : parser_normal e ->
+  reports_equiv (reported true roots (visit_events e)) (spec_paths roots (fun _ => true) e).
+Proof. rewrite visit_events_gev. exact (exact_gen roots (fun _ => true) false e). Qed.
+
+End Instances.
